@@ -134,9 +134,19 @@ func (u *provider) Headroom() int {
 }
 
 func (u *provider) SetDispatchPorts(start, end, redirect uint16) {
+	u.mu.Lock()
+	defer u.mu.Unlock()
 	u.dispatchStart = start
 	u.dispatchEnd = end
 	u.dispatchRedirect = redirect
+	// The internal link may exist already (the router configures the port range last).
+	if c := u.internalConnection; c != nil {
+		if il, ok := c.link.(*internalLink); ok {
+			il.dispatchStart = start
+			il.dispatchEnd = end
+			il.dispatchRedirect = redirect
+		}
+	}
 }
 
 // AddSvc adds the address for the given service.
@@ -974,8 +984,11 @@ func (l *internalLink) Resolve(p *router.Packet, dst addr.Host, port uint16) err
 	default:
 		panic(fmt.Sprintf("unexpected address type returned from DstAddr: %s", dst.Type()))
 	}
-	// if port is outside the configured port range we send to the fixed port.
-	if port < l.dispatchStart && port > l.dispatchEnd {
+	// If port is outside the configured port range we send to the fixed port. The port of a service
+	// comes from its registration and is not subject to the range. Port 0 is never dispatched (the
+	// empty range is represented as 0-0).
+	if dst.Type() == addr.HostTypeIP &&
+		(port == 0 || port < l.dispatchStart || port > l.dispatchEnd) {
 		port = l.dispatchRedirect
 	}
 
